@@ -1,5 +1,5 @@
 (* C01 - every row Wheatley rings is a complete row.  ONLY statements closed by `exact`. *)
-From Wh Require Import Prelude Permute PN Gens PermuteP GensP.
+From Wh Require Import Prelude Permute PN Gens Complib Tower Rhythm PyStr Sys PermuteP GensP BotP.
 From Coq Require Import Permutation.
 
 (* one change, ALL stages, place lists (sorted or not, in range or not) and rows *)
@@ -41,6 +41,16 @@ Proof. exact mk_dixon_inv. Qed.
 Theorem C01_gen_next_total : forall g st,
   total_kind g -> gen_inv g -> exists y, gen_next g st = Ok y.
 Proof. exact gen_next_total. Qed.
+
+(* cover bells: a method row (a permutation of the generator's start row) padded with the tail of the
+   Bot's opening row - exactly what generate_next_row does - is a permutation of the opening row, i.e.
+   a complete row of the tower, for every stage <= tower size and every custom start row *)
+Theorem C01_cover_padding_is_complete_row : forall stage n custom sr op r,
+  stage <= n ->
+  generate_starting_row stage custom = Ok sr -> generate_starting_row n custom = Ok op ->
+  Permutation r sr ->
+  Permutation (if length r <? length op then r ++ skipn (length r) op else r) op.
+Proof. exact cover_padding_is_complete_row. Qed.
 
 (* non-vacuity: the hypotheses hold of Grandsire Triples, and a history with a Single produces rows *)
 Example C01_nonvacuous :
